@@ -5,7 +5,7 @@
    working tree.  What ties the model to the code is the correspondence of harness/props/C20.py. *)
 From Coq Require Import List ZArith Bool.
 From PV Require Import lib.Sx lib.Str lib.Result model.Generated model.Detect spec.SpecDetect spec.SpecOwn
-  proofs.DetectFacts proofs.DetectOwnFacts model.OwnWrite spec.SpecOwnNodes proofs.DetectNodeFacts proofs.DetectVttFacts model.SccWrite model.OwnWriteScc proofs.OwnSccFacts model.TimeRead proofs.OwnReadFacts.
+  proofs.DetectFacts proofs.DetectOwnFacts model.OwnWrite spec.SpecOwnNodes proofs.DetectNodeFacts proofs.DetectVttFacts model.SccWrite model.OwnWriteScc proofs.OwnSccFacts model.TimeRead proofs.OwnReadFacts proofs.OwnReadSrtFacts spec.SpecXmlDocT model.DfxpWriteDoc model.OwnWriteDfxp proofs.OwnDfxpFacts.
 Import ListNotations.
 Open Scope Z_scope.
 
@@ -125,6 +125,35 @@ Theorem C20_own_detect_and_read_mdvd : forall langs, mdvd_dom langs = true -> md
                = map (fun c => (mdvd_frame (oc_start c) * 40000, mdvd_frame (oc_end c) * 40000)) (concat langs).
 Proof. exact own_detect_and_read_mdvd. Qed.
 Print Assumptions C20_own_detect_and_read_mdvd.
+
+(* SRT (round 4): on srt_read_dom - ONE language with a caption (excludes the recorded finding of an empty first
+   language; behind the separator line the reader glues the next language to the last cue), every caption has a
+   non-blank character and no CR in its text - the reader model of C01 (TimeRead.srt_read, read-only) returns ONE caption
+   per written cue (= per caption after the writer's merging of equal timestamps), in order, with the written instants
+   (time of day, truncated to milliseconds) and the written text lines.  The document is C01's abstract SRT document
+   without the blank line behind the last cue (srt[:-1]). *)
+Theorem C20_own_read_srt : forall langs, srt_read_dom langs = true ->
+  srt_read (srt_write langs) = Ok (map srt_expected_cap (srt_merge (hd [] langs))).
+Proof. exact own_read_srt. Qed.
+Print Assumptions C20_own_read_srt.
+Theorem C20_own_detect_and_read_srt : forall langs, srt_dom langs = true -> srt_read_dom langs = true ->
+  detect_format (srt_write langs) = Ok (Some R_SRT) /\
+  exists caps, srt_read (srt_write langs) = Ok caps /\ length caps = length (srt_merge (hd [] langs)) /\
+               map (fun r => (fst (fst r), snd (fst r))) caps
+               = map (fun c => ((td_seconds (oc_start c) * 1000 + td_millis (oc_start c)) * 1000,
+                                (td_seconds (oc_end c) * 1000 + td_millis (oc_end c)) * 1000)) (srt_merge (hd [] langs)).
+Proof. exact own_detect_and_read_srt. Qed.
+Print Assumptions C20_own_detect_and_read_srt.
+
+(* DFXP from the text nodes (round 4): the document of the string-level DFXP writer model (time builders'
+   model/DfxpWriteDoc.v, read-only; one language, text lines, no style / layout) closes the root element with "</tt>": it is
+   detected as DFXP for EVERY caption list and language code, whatever the text (the writer escapes it; not even needed). *)
+Theorem C20_own_nodes_dfxp : forall lang caps, detect_format (dfxp_write_nodes lang caps) = Ok (Some R_DFXP).
+Proof. exact own_nodes_dfxp. Qed.
+Print Assumptions C20_own_nodes_dfxp.
+Theorem C20_own_dfxp_doc_model : forall lang cs, detect_format (dfxp_write_doc lang cs) = Ok (Some R_DFXP).
+Proof. exact own_dfxp_doc. Qed.
+Print Assumptions C20_own_dfxp_doc_model.
 
 (* DFXP / SAMI (documents produced by bs4, not modelled): what detection needs of their skeleton.  A document that
    contains the root element's closing tag is DFXP whatever else it contains; a document that opens with the <sami root
@@ -297,3 +326,25 @@ Example C20_example_read_mdvd :
   let e1 := [[]; [mk_ocap 1000000 2000000 [OText (lit "x")]]] in
   srt_read_dom e1 = false /\ srt_dom e1 = false /\ detect_format (srt_write e1) = Ok None.
 Proof. vm_compute. repeat split. Qed.
+
+(* SRT read-back: satisfiable (two captions with equal timestamps are ONE written cue), and every hypothesis is needed:
+   a second language is glued to the last cue; a blank caption is written without text and read back with one empty line instead of no line; a CR inside the text
+   splits a line (CR CR even ends the cue: the rest of the document is not read) *)
+Example C20_example_read_srt :
+  let ok := [[mk_ocap 1000000 2000500 [OText (lit "a"); OBreak; OText (lit " b ")]; mk_ocap 1000000 2000500 [OText (lit "c")];
+              mk_ocap 3000000 4000000 [OText (lit "-->")]]] in
+  srt_read_dom ok = true /\
+  srt_read (srt_write ok) = Ok [(1000000, 2000000, [lit "a"; [32; 98; 32]; lit "c"]); (3000000, 4000000, [lit "-->"])] /\
+  let two := [[mk_ocap 1000000 2000000 [OText (lit "a")]]; [mk_ocap 1000000 2000000 [OText (lit "b")]]] in
+  srt_read_dom two = false /\ srt_dom two = true /\
+  srt_read (srt_write two) = Ok [(1000000, 2000000, [lit "a"; lit "MULTI-LANGUAGE SRT"; lit "1"; lit "00:00:01,000 --> 00:00:02,000"; lit "b"])] /\
+  let blank := [[mk_ocap 1000000 2000000 [OText (lit " ")]; mk_ocap 3000000 4000000 [OText (lit "x")]]] in
+  srt_read_dom blank = false /\ srt_dom blank = true /\ srt_read (srt_write blank) = Ok [(1000000, 2000000, [[]]); (3000000, 4000000, [lit "x"])] /\
+  let cr := [[mk_ocap 1000000 2000000 [OText (lit "a" ++ [13; 13] ++ lit "b")]; mk_ocap 3000000 4000000 [OText (lit "x")]]] in
+  srt_read_dom cr = false /\ srt_dom cr = true /\ srt_read (srt_write cr) = Ok [(1000000, 2000000, [lit "a"])].
+Proof. vm_compute. repeat split. Qed.
+
+Example C20_example_own_nodes_dfxp :
+  detect_format (dfxp_write_nodes (lit "en-US")
+    [mk_ocap 1000000 2000000 [OText (lit "WEBVTT {1}{2}"); OBreak; OText (lit "<sami> Scenarist_SCC V1.0 -->")]]) = Ok (Some R_DFXP).
+Proof. vm_compute. reflexivity. Qed.
